@@ -784,7 +784,12 @@ func runE2E(cfg hx.Config, meta *hx.Meta) error {
 		}
 		p := &e2ePkg{ntypes: 3, class: fmt.Sprintf("small/k=%d", k)}
 		firstCand := false
-		switch r.Intn(3) {
+		bare := false
+		switch r.Intn(4) {
+		case 3:
+			// the user's functions are named exactly like the plugin prefixes (the first name newName tries)
+			p.reserved = []string{"deriveCompare", "deriveEqual"}
+			bare = true
 		case 0:
 			p.reserved = []string{"deriveEqual_i", "deriveEqual_1", "deriveCompare_i", "deriveCompare_N2"}
 		case 1:
@@ -797,6 +802,9 @@ func runE2E(cfg hx.Config, meta *hx.Meta) error {
 			ns := names(pl)
 			if firstCand {
 				ns = []string{ns[0], ns[2]}
+			}
+			if bare {
+				ns = []string{ns[1], ns[2]}
 			}
 			p.calls = append(p.calls, Call{pl, hx.Pick(r, ns), r.Intn(3)})
 		}
